@@ -60,8 +60,7 @@ public:
     struct FreeCall { bool active = false; int fileno = -1; int ver = 0; bool disturbed = false; };
 
     ~StoreMapHarness() override {
-        delete map_;
-        delete owner_;
+        if (map_) map_->cleaner = nullptr; // the segments and the attached map are reused by the next case
         if (ps_) ps_->~PageStack();
         free(psMem_);
     }
@@ -87,14 +86,26 @@ public:
             keys_[j][0] = static_cast<uint64_t>(j + 1) * static_cast<uint64_t>(n_) * 7919ULL;
             keys_[j][1] = static_cast<uint64_t>(keyPos_[j]) + static_cast<uint64_t>(n_) * (j + 1);
         }
-        static uint64_t serial = 0;
-        char name[64];
-        snprintf(name, sizeof(name), "vc55-%llu", static_cast<unsigned long long>(++serial));
-        const SBuf path(name);
-        owner_ = Ipc::StoreMap::Init(path, n_);
-        map_ = new Ipc::StoreMap(path);
+        // One set of real shared segments (StoreMap::Init) + one attached StoreMap per map size and process; every case
+        // re-creates the shared objects in place (zeroed memory + the same constructors Init() runs). Creating and mapping
+        // three fresh segments per case is correct too but makes page faults the bottleneck of the whole machine.
+        Shared &sh = sharedFor(n_);
+        owner_ = sh.owner;
+        map_ = sh.map;
+        {
+            auto *fileNos = owner_->fileNos->object();
+            memset(static_cast<void *>(fileNos), 0, Ipc::StoreMapFileNos::SharedMemorySize(n_));
+            new (fileNos) Ipc::StoreMapFileNos(n_);
+            auto *anchors = owner_->anchors->object();
+            memset(static_cast<void *>(anchors), 0, Ipc::StoreMapAnchors::SharedMemorySize(n_));
+            new (anchors) Ipc::StoreMapAnchors(n_);
+            auto *slices = owner_->slices->object();
+            memset(static_cast<void *>(slices), 0, Ipc::StoreMapSlices::SharedMemorySize(n_));
+            new (slices) Ipc::StoreMapSlices(n_);
+        }
         map_->cleaner = this;
         Ipc::Mem::PageStack::Config cfg;
+        memset(static_cast<void *>(&cfg), 0, sizeof(cfg)); // padding bytes are copied into the (hashed) PageStack
         cfg.poolId = PoolId;
         cfg.pageSize = 0;
         cfg.capacity = static_cast<unsigned>(n_);
@@ -267,6 +278,20 @@ public:
 
 private:
     static const uint32_t PoolId = 9;
+
+    struct Shared { Ipc::StoreMap::Owner *owner = nullptr; Ipc::StoreMap *map = nullptr; };
+    static Shared &sharedFor(int slots) {
+        static Shared all[17];
+        Shared &sh = all[slots];
+        if (!sh.owner) {
+            char name[64];
+            snprintf(name, sizeof(name), "vc55-%d", slots);
+            const SBuf path(name);
+            sh.owner = Ipc::StoreMap::Init(path, slots);
+            sh.map = new Ipc::StoreMap(path);
+        }
+        return sh;
+    }
 
     uint64_t now() { return tick_++; }
     const cache_key *keyOf(int j) const { return reinterpret_cast<const cache_key *>(keys_[j]); }
